@@ -4,6 +4,8 @@
 (* set of violated requirements; the number of reports is counted in a TLC     *)
 (* register so that the orchestrator can check that it parsed all of them.     *)
 EXTENDS TLC, Naturals, Sequences
+\* NOTE: Note(l, f) must be the LAST conjunct of the next-state action (all primed variables already determined),
+\* otherwise TLC explores both disjuncts as alternative successors.
 KitInit == TLCSet(1, 0)
 Note(l, f) == f = {} \/ (PrintT(<<"REJECT", l, f>>) /\ TLCSet(1, TLCGet(1) + 1))
 KitDone(n) == PrintT(<<"NREJ", TLCGet(1)>>) /\ TLCGet("stats").diameter - 1 = n
